@@ -1,8 +1,8 @@
 /-
   FparseVals, part 2: VALUE PROVENANCE for every operation of the forest model (Model/Manip.lean, Manip2.lean).
 
-  `QF Q` (every node's value satisfies `Q`) is kept by every operation, given
-    * `QCat Q`: `Q` is closed under concatenation of text values (text consolidation),
+  `fpvQF Q` (every node's value satisfies `Q`) is kept by every operation, given
+    * `fpvQCat Q`: `Q` is closed under concatenation of text values (text consolidation),
     * `Q` of the values the call is handed (the new value of a setter, the entry of a map insertion, the
       name of a wrapper element),
   and nothing else — except `text_content_mut(node).set(s)` on an element without normal children, which
@@ -17,17 +17,17 @@ namespace XotModel
 open HTree
 
 /-- `Q` is closed under concatenation of text values. -/
-def QCat (Q : Value → Prop) : Prop := ∀ a b, Q (.text a) → Q (.text b) → Q (.text (a ++ b))
+def fpvQCat (Q : Value → Prop) : Prop := ∀ a b, Q (.text a) → Q (.text b) → Q (.text (a ++ b))
 
 namespace Forest
 
 variable {Q : Value → Prop}
 
-theorem fpv_merge {f : Forest} (hq : QF Q f) (p n : Nat) {v : Value} (hv : Q v) :
-    QF Q ((f.setValue p v).spliceOut n) := fpv_spliceOut (fpv_setValue hq p hv) n
+theorem fpv_merge {f : Forest} (hq : fpvQF Q f) (p n : Nat) {v : Value} (hv : Q v) :
+    fpvQF Q ((f.setValue p v).spliceOut n) := fpv_spliceOut (fpv_setValue hq p hv) n
 
-theorem fpv_removeConsolidate (hc : QCat Q) {f : Forest} (hq : QF Q f) (prev next : Option Nat) :
-    QF Q (f.removeConsolidate prev next).1 := by
+theorem fpv_removeConsolidate (hc : fpvQCat Q) {f : Forest} (hq : fpvQF Q f) (prev next : Option Nat) :
+    fpvQF Q (f.removeConsolidate prev next).1 := by
   unfold removeConsolidate
   split
   · exact hq
@@ -41,8 +41,8 @@ theorem fpv_removeConsolidate (hc : QCat Q) {f : Forest} (hq : QF Q f) (prev nex
         | some ns => exact fpv_merge hq _ _ (hc _ _ (fpv_textOf hq hp) (fpv_textOf hq hn))
     · exact hq
 
-theorem fpv_addConsolidate (hc : QCat Q) {f : Forest} (hq : QF Q f) (node : Nat) (prev next : Option Nat) :
-    QF Q (f.addConsolidate node prev next).1 := by
+theorem fpv_addConsolidate (hc : fpvQCat Q) {f : Forest} (hq : fpvQF Q f) (node : Nat) (prev next : Option Nat) :
+    fpvQF Q (f.addConsolidate node prev next).1 := by
   rw [addConsolidate_eq_old]
   generalize f.selfPrev node prev = prev
   generalize f.selfNext node next = next
@@ -53,7 +53,7 @@ theorem fpv_addConsolidate (hc : QCat Q) {f : Forest} (hq : QF Q f) (node : Nat)
     | none => exact hq
     | some added =>
       have hA := fpv_textOf hq ha
-      have viaNext : QF Q (match next with
+      have viaNext : fpvQF Q (match next with
           | some n => (match f.textOf n with
               | some ns => ((f.setValue n (.text (added ++ ns))).spliceOut node, true)
               | none => (f, false))
@@ -73,10 +73,10 @@ theorem fpv_addConsolidate (hc : QCat Q) {f : Forest} (hq : QF Q f) (node : Nat)
         | none => exact viaNext
       | none => exact viaNext
 
-theorem fpv_res {g : Forest} {b : Bool} {r1 r2 : Res} (h : QF Q g) :
-    QF Q (if b = true then (g, r1) else (g, r2)).1 := by split <;> exact h
+theorem fpv_res {g : Forest} {b : Bool} {r1 r2 : Res} (h : fpvQF Q g) :
+    fpvQF Q (if b = true then (g, r1) else (g, r2)).1 := by split <;> exact h
 
-theorem fpv_append (hc : QCat Q) {f : Forest} (hq : QF Q f) (p c : Nat) : QF Q (f.append p c).1 := by
+theorem fpv_append (hc : fpvQCat Q) {f : Forest} (hq : fpvQF Q f) (p c : Nat) : fpvQF Q (f.append p c).1 := by
   unfold append
   split
   · exact hq
@@ -100,8 +100,8 @@ theorem fpv_append (hc : QCat Q) {f : Forest} (hq : QF Q f) (p c : Nat) : QF Q (
           rw [hcx] at h3
           exact fpv_res h3
 
-theorem fpv_mapPlace {f : Forest} (hq : QF Q f) (k : MapKind) (parent node : Nat) :
-    QF Q (f.mapPlace k parent node).1 := by
+theorem fpv_mapPlace {f : Forest} (hq : fpvQF Q f) (k : MapKind) (parent node : Nat) :
+    fpvQF Q (f.mapPlace k parent node).1 := by
   unfold mapPlace
   cases f.mapInsertionPoint k parent with
   | some ip =>
@@ -115,7 +115,7 @@ theorem fpv_mapPlace {f : Forest} (hq : QF Q f) (k : MapKind) (parent node : Nat
     cases hcx : f.checkedPrepend parent node with
     | mk f' okb => rw [hcx] at this; exact fpv_res this
 
-theorem fpv_prepend (hc : QCat Q) {f : Forest} (hq : QF Q f) (p c : Nat) : QF Q (f.prepend p c).1 := by
+theorem fpv_prepend (hc : fpvQCat Q) {f : Forest} (hq : fpvQF Q f) (p c : Nat) : fpvQF Q (f.prepend p c).1 := by
   unfold prepend
   split
   · exact hq
@@ -145,8 +145,8 @@ theorem fpv_prepend (hc : QCat Q) {f : Forest} (hq : QF Q f) (p c : Nat) : QF Q 
           cases hcx : f2.checkedPrepend p c with
           | mk f3 okb => rw [hcx] at h3; exact fpv_res h3
 
-theorem fpv_insertAfter (hc : QCat Q) {f : Forest} (hq : QF Q f) (ref c : Nat) :
-    QF Q (f.insertAfter ref c).1 := by
+theorem fpv_insertAfter (hc : fpvQCat Q) {f : Forest} (hq : fpvQF Q f) (ref c : Nat) :
+    fpvQF Q (f.insertAfter ref c).1 := by
   unfold insertAfter
   split
   · exact hq
@@ -171,8 +171,8 @@ theorem fpv_insertAfter (hc : QCat Q) {f : Forest} (hq : QF Q f) (ref c : Nat) :
         cases hcx : f2.checkedInsertAfter ref' c with
         | mk f3 okb => rw [hcx] at h3; exact fpv_res h3
 
-theorem fpv_insertBefore (hc : QCat Q) {f : Forest} (hq : QF Q f) (ref c : Nat) :
-    QF Q (f.insertBefore ref c).1 := by
+theorem fpv_insertBefore (hc : fpvQCat Q) {f : Forest} (hq : fpvQF Q f) (ref c : Nat) :
+    fpvQF Q (f.insertBefore ref c).1 := by
   unfold insertBefore
   split
   · exact hq
@@ -196,14 +196,14 @@ theorem fpv_insertBefore (hc : QCat Q) {f : Forest} (hq : QF Q f) (ref c : Nat) 
         cases hcx : f2.checkedInsertBefore ref c with
         | mk f3 okb => rw [hcx] at h3; exact fpv_res h3
 
-theorem fpv_detach (hc : QCat Q) {f : Forest} (hq : QF Q f) (node : Nat) : QF Q (f.detach node).1 :=
+theorem fpv_detach (hc : fpvQCat Q) {f : Forest} (hq : fpvQF Q f) (node : Nat) : fpvQF Q (f.detach node).1 :=
   fpv_removeConsolidate hc (fpv_detachRaw hq node) _ _
 
-theorem fpv_remove (hc : QCat Q) {f : Forest} (hq : QF Q f) (node : Nat) : QF Q (f.remove node).1 :=
+theorem fpv_remove (hc : fpvQCat Q) {f : Forest} (hq : fpvQF Q f) (node : Nat) : fpvQF Q (f.remove node).1 :=
   fpv_removeConsolidate hc (fpv_dropSubtree hq node) _ _
 
-theorem fpv_foldl_remove (hc : QCat Q) {α : Type} (g : α → Nat) (xs : List α) {f : Forest} (hq : QF Q f) :
-    QF Q (xs.foldl (fun acc c => (acc.remove (g c)).1) f) := by
+theorem fpv_foldl_remove (hc : fpvQCat Q) {α : Type} (g : α → Nat) (xs : List α) {f : Forest} (hq : fpvQF Q f) :
+    fpvQF Q (xs.foldl (fun acc c => (acc.remove (g c)).1) f) := by
   induction xs generalizing f with
   | nil => exact hq
   | cons x xs ih => exact ih (fpv_remove hc hq (g x))
@@ -223,7 +223,7 @@ theorem fpv_mapGetNode_key {f : Forest} {k : MapKind} {parent key : Nat} {n : HT
     have := List.find?_some h
     simpa using this
 
-theorem fpv_mapGetNode_Q {f : Forest} (hq : QF Q f) {k : MapKind} {parent key : Nat} {n : HTree}
+theorem fpv_mapGetNode_Q {f : Forest} (hq : fpvQF Q f) {k : MapKind} {parent key : Nat} {n : HTree}
     (h : f.mapGetNode k parent key = some n) : Q n.value := by
   unfold mapGetNode at h
   cases hg : f.get? parent with
@@ -240,8 +240,8 @@ theorem fpv_mapGetNode_Q {f : Forest} (hq : QF Q f) {k : MapKind} {parent key : 
         exact (List.dropWhile_sublist _).subset this
     exact fpv_QT_value (fpv_QL_mem (fpv_QT_kids (fpv_get? hq hg)) hk)
 
-theorem fpv_mapInsert {f : Forest} (hq : QF Q f) (k : MapKind) (parent : Nat) {entry : Value} (hv : Q entry) :
-    QF Q (f.mapInsert k parent entry).1 := by
+theorem fpv_mapInsert {f : Forest} (hq : fpvQF Q f) (k : MapKind) (parent : Nat) {entry : Value} (hv : Q entry) :
+    fpvQF Q (f.mapInsert k parent entry).1 := by
   unfold mapInsert
   split
   · exact hq
@@ -254,8 +254,8 @@ theorem fpv_mapInsert {f : Forest} (hq : QF Q f) (k : MapKind) (parent : Nat) {e
       · rw [h]; exact fpv_mapGetNode_Q hq hm
     | none => exact fpv_mapPlace (fpv_newNode hq hv) k parent _
 
-theorem fpv_mapInsertNode {f : Forest} (hq : QF Q f) (k : MapKind) (parent node : Nat) :
-    QF Q (f.mapInsertNode k parent node).1 := by
+theorem fpv_mapInsertNode {f : Forest} (hq : fpvQF Q f) (k : MapKind) (parent node : Nat) :
+    fpvQF Q (f.mapInsertNode k parent node).1 := by
   unfold mapInsertNode
   cases hv : f.value? node with
   | none => exact hq
@@ -272,8 +272,8 @@ theorem fpv_mapInsertNode {f : Forest} (hq : QF Q f) (k : MapKind) (parent node 
         · rw [h]; exact fpv_mapGetNode_Q hq hm
       | none => exact fpv_mapPlace hq k parent node
 
-theorem fpv_mapRemove (hc : QCat Q) {f : Forest} (hq : QF Q f) (k : MapKind) (parent key : Nat) :
-    QF Q (f.mapRemove k parent key).1 := by
+theorem fpv_mapRemove (hc : fpvQCat Q) {f : Forest} (hq : fpvQF Q f) (k : MapKind) (parent key : Nat) :
+    fpvQF Q (f.mapRemove k parent key).1 := by
   unfold mapRemove
   split
   · exact hq
@@ -281,8 +281,8 @@ theorem fpv_mapRemove (hc : QCat Q) {f : Forest} (hq : QF Q f) (k : MapKind) (pa
     | some n => exact fpv_remove hc hq _
     | none => exact hq
 
-theorem fpv_mapClear (hc : QCat Q) {f : Forest} (hq : QF Q f) (k : MapKind) (parent : Nat) :
-    QF Q (f.mapClear k parent).1 := by
+theorem fpv_mapClear (hc : fpvQCat Q) {f : Forest} (hq : fpvQF Q f) (k : MapKind) (parent : Nat) :
+    fpvQF Q (f.mapClear k parent).1 := by
   unfold mapClear
   split
   · exact hq
@@ -290,8 +290,8 @@ theorem fpv_mapClear (hc : QCat Q) {f : Forest} (hq : QF Q f) (k : MapKind) (par
     | none => exact hq
     | some t => exact fpv_foldl_remove hc (fun c : HTree => c.handle) _ hq
 
-theorem fpv_appendEntryNode {f : Forest} (hq : QF Q f) (k : MapKind) (parent child : Nat) :
-    QF Q (f.appendEntryNode k parent child).1 := by
+theorem fpv_appendEntryNode {f : Forest} (hq : fpvQF Q f) (k : MapKind) (parent child : Nat) :
+    fpvQF Q (f.appendEntryNode k parent child).1 := by
   unfold appendEntryNode
   split
   · exact hq
@@ -303,28 +303,28 @@ theorem fpv_appendEntryNode {f : Forest} (hq : QF Q f) (k : MapKind) (parent chi
       · exact hq
       · exact fpv_mapInsertNode hq k parent child
 
-theorem fpv_anyAppend (hc : QCat Q) {f : Forest} (hq : QF Q f) (parent child : Nat) :
-    QF Q (f.anyAppend parent child).1 := by
+theorem fpv_anyAppend (hc : fpvQCat Q) {f : Forest} (hq : fpvQF Q f) (parent child : Nat) :
+    fpvQF Q (f.anyAppend parent child).1 := by
   unfold anyAppend
   split
   · exact fpv_appendEntryNode hq _ _ _
   · exact fpv_appendEntryNode hq _ _ _
   · exact fpv_append hc hq _ _
 
-theorem fpv_setElementName {f : Forest} (hq : QF Q f) (node : Nat) {name : Nat} (hv : Q (.element name)) :
-    QF Q (f.setElementName node name).1 := by
+theorem fpv_setElementName {f : Forest} (hq : fpvQF Q f) (node : Nat) {name : Nat} (hv : Q (.element name)) :
+    fpvQF Q (f.setElementName node name).1 := by
   unfold setElementName; split
   · exact fpv_setValue hq _ hv
   · exact hq
 
-theorem fpv_setText {f : Forest} (hq : QF Q f) (node : Nat) {s : Str} (hv : Q (.text s)) :
-    QF Q (f.setText node s).1 := by
+theorem fpv_setText {f : Forest} (hq : fpvQF Q f) (node : Nat) {s : Str} (hv : Q (.text s)) :
+    fpvQF Q (f.setText node s).1 := by
   unfold setText; split
   · exact fpv_setValue hq _ hv
   · exact hq
 
-theorem fpv_setComment {f : Forest} (hq : QF Q f) (node : Nat) {s : Str} (hv : Q (.comment s)) :
-    QF Q (f.setComment node s).1 := by
+theorem fpv_setComment {f : Forest} (hq : fpvQF Q f) (node : Nat) {s : Str} (hv : Q (.comment s)) :
+    fpvQF Q (f.setComment node s).1 := by
   unfold setComment; split
   · split
     · exact hq
@@ -332,9 +332,9 @@ theorem fpv_setComment {f : Forest} (hq : QF Q f) (node : Nat) {s : Str} (hv : Q
   · exact hq
 
 /-- `set_data(d)`: the target stays, so the condition on `d` is relative to the PI's own value. -/
-theorem fpv_setPiData {f : Forest} (hq : QF Q f) (node : Nat) (d : Option Str)
+theorem fpv_setPiData {f : Forest} (hq : fpvQF Q f) (node : Nat) (d : Option Str)
     (hv : ∀ t d0, Q (.pi t d0) → Q (.pi t (match d with | some [] => none | x => x))) :
-    QF Q (f.setPiData node d).1 := by
+    fpvQF Q (f.setPiData node d).1 := by
   unfold setPiData
   cases hval : f.value? node with
   | none => exact hq
@@ -343,12 +343,12 @@ theorem fpv_setPiData {f : Forest} (hq : QF Q f) (node : Nat) (d : Option Str)
     | pi t d0 => exact fpv_setValue hq _ (hv t d0 (fpv_value? hq hval))
     | _ => exact hq
 
-theorem fpv_setConsolidation {f : Forest} (hq : QF Q f) (b : Bool) : QF Q (f.setConsolidation b) := hq
+theorem fpv_setConsolidation {f : Forest} (hq : fpvQF Q f) (b : Bool) : fpvQF Q (f.setConsolidation b) := hq
 
 /-- `text_content_mut(node).set(s)`.  On an element without normal children the call goes through an
     empty text node; the invariant says it is that node which receives `s`. -/
-theorem fpv_textContentSet (hc : QCat Q) {f : Forest} (hi : f.Inv) (hq : QF Q f) (node : Nat) {s : Str}
-    (hv : Q (.text s)) : QF Q (f.textContentSet node s).1 := by
+theorem fpv_textContentSet (hc : fpvQCat Q) {f : Forest} (hi : f.Inv) (hq : fpvQF Q f) (node : Nat) {s : Str}
+    (hv : Q (.text s)) : fpvQF Q (f.textContentSet node s).1 := by
   cases hfc : f.firstChild node with
   | some c =>
     unfold textContentSet
@@ -373,18 +373,18 @@ theorem fpv_textContentSet (hc : QCat Q) {f : Forest} (hi : f.Inv) (hq : QF Q f)
       have := (fpv_place hq (t := .node f.next (.text s) []) (fpv_QT_node.mpr ⟨hv, fpv_QL_nil⟩) node).2.2.1
       exact this
 
-theorem fpv_removeInsignificantWhitespace (hc : QCat Q) {f : Forest} (hq : QF Q f) (node : Nat) :
-    QF Q (f.removeInsignificantWhitespace node) := by
+theorem fpv_removeInsignificantWhitespace (hc : fpvQCat Q) {f : Forest} (hq : fpvQF Q f) (node : Nat) :
+    fpvQF Q (f.removeInsignificantWhitespace node) := by
   unfold removeInsignificantWhitespace
   cases f.get? node with
   | none => exact hq
   | some t =>
     simp only
-    have h0 : QF Q ({ f with consolidation := false } : Forest) := hq
+    have h0 : fpvQF Q ({ f with consolidation := false } : Forest) := hq
     exact fpv_foldl_remove hc (fun n : Nat => n)
       ((descendantsNormal t).filter f.isInsignificantWhitespace) h0
 
-theorem fpv_replace (hc : QCat Q) {f : Forest} (hq : QF Q f) (a b : Nat) : QF Q (f.replace a b).1 := by
+theorem fpv_replace (hc : fpvQCat Q) {f : Forest} (hq : fpvQF Q f) (a b : Nat) : fpvQF Q (f.replace a b).1 := by
   unfold replace
   split
   · exact hq
@@ -418,8 +418,8 @@ theorem fpv_replace (hc : QCat Q) {f : Forest} (hq : QF Q f) (a b : Nat) : QF Q 
           | err e => exact h2
           | panic => exact h2
 
-theorem fpv_elementWrap (hc : QCat Q) {f : Forest} (hq : QF Q f) (node : Nat) {name : Nat}
-    (hv : Q (.element name)) : QF Q (f.elementWrap node name).1 := by
+theorem fpv_elementWrap (hc : fpvQCat Q) {f : Forest} (hq : fpvQF Q f) (node : Nat) {name : Nat}
+    (hv : Q (.element name)) : fpvQF Q (f.elementWrap node name).1 := by
   unfold elementWrap
   split
   · exact hq
@@ -430,7 +430,7 @@ theorem fpv_elementWrap (hc : QCat Q) {f : Forest} (hq : QF Q f) (node : Nat) {n
   cases f.parent? node with
   | some parent =>
     simp only
-    have h1 : QF Q (f.newElement name).1 := fpv_newNode hq hv
+    have h1 : fpvQF Q (f.newElement name).1 := fpv_newNode hq hv
     cases hn : f.newElement name with
     | mk f1 wrapper =>
       rw [hn] at h1
@@ -451,27 +451,27 @@ theorem fpv_elementWrap (hc : QCat Q) {f : Forest} (hq : QF Q f) (node : Nat) {n
         | panic => exact h3
   | none =>
     simp only
-    have h1 : QF Q (f.newElement name).1 := fpv_newNode hq hv
+    have h1 : fpvQF Q (f.newElement name).1 := fpv_newNode hq hv
     cases hn : f.newElement name with
     | mk f1 wrapper =>
       rw [hn] at h1
       simp only
       exact fpv_append hc h1 wrapper node
 
-theorem fpv_foldl_spliceOut (xs : List HTree) {f : Forest} (hq : QF Q f) :
-    QF Q (xs.foldl (fun acc k => acc.spliceOut k.handle) f) := by
+theorem fpv_foldl_spliceOut (xs : List HTree) {f : Forest} (hq : fpvQF Q f) :
+    fpvQF Q (xs.foldl (fun acc k => acc.spliceOut k.handle) f) := by
   induction xs generalizing f with
   | nil => exact hq
   | cons x xs ih => exact ih (fpv_spliceOut hq x.handle)
 
-theorem fpv_removeElement {f : Forest} (hq : QF Q f) (node : Nat) : QF Q (f.removeElement node) := by
+theorem fpv_removeElement {f : Forest} (hq : fpvQF Q f) (node : Nat) : fpvQF Q (f.removeElement node) := by
   unfold removeElement
   cases f.get? node with
   | none => exact hq
   | some t => exact fpv_spliceOut (fpv_foldl_spliceOut _ hq) node
 
-theorem fpv_elementUnwrap (hc : QCat Q) {f : Forest} (hq : QF Q f) (node : Nat) :
-    QF Q (f.elementUnwrap node).1 := by
+theorem fpv_elementUnwrap (hc : fpvQCat Q) {f : Forest} (hq : fpvQF Q f) (node : Nat) :
+    fpvQF Q (f.elementUnwrap node).1 := by
   unfold elementUnwrap
   split
   · exact hq
@@ -497,15 +497,15 @@ theorem fpv_elementUnwrap (hc : QCat Q) {f : Forest} (hq : QF Q f) (node : Nat) 
           · exact fpv_removeConsolidate hc h2 _ _
         · exact fpv_removeConsolidate hc h2 _ _
 
-theorem fpv_clone_step (hc : QCat Q) {f f2 : Forest} (hq : QF Q f) {v : Value} (hv : Q v) {current : Nat} {r : Res}
-    {n : Nat} (heq : (f.newNode v).1.anyAppend current (f.newNode v).2 = (f2, r, n)) : QF Q f2 := by
+theorem fpv_clone_step (hc : fpvQCat Q) {f f2 : Forest} (hq : fpvQF Q f) {v : Value} (hv : Q v) {current : Nat} {r : Res}
+    {n : Nat} (heq : (f.newNode v).1.anyAppend current (f.newNode v).2 = (f2, r, n)) : fpvQF Q f2 := by
   have h2 := fpv_anyAppend hc (fpv_newNode hq hv) current (f.newNode v).2
   rw [heq] at h2
   exact h2
 
 mutual
-  theorem fpv_cloneInto (hc : QCat Q) (current : Nat) : ∀ (t : HTree) (f f' : Forest), QT Q t → QF Q f →
-      cloneInto f current t = some f' → QF Q f'
+  theorem fpv_cloneInto (hc : fpvQCat Q) (current : Nat) : ∀ (t : HTree) (f f' : Forest), fpvQT Q t → fpvQF Q f →
+      cloneInto f current t = some f' → fpvQF Q f'
     | .node h v ks, f, f' => by
       intro ht hq hcl
       obtain ⟨hv, hks⟩ := fpv_QT_node.mp ht
@@ -518,8 +518,8 @@ mutual
         · rename_i f2 _ heq
           exact fpv_cloneKids hc _ ks f2 f' hks (fpv_clone_step hc hq hv heq) hcl
         · cases hcl
-  theorem fpv_cloneKids (hc : QCat Q) (current : Nat) : ∀ (ks : List HTree) (f f' : Forest), QL Q ks → QF Q f →
-      cloneKids f current ks = some f' → QF Q f'
+  theorem fpv_cloneKids (hc : fpvQCat Q) (current : Nat) : ∀ (ks : List HTree) (f f' : Forest), fpvQL Q ks → fpvQF Q f →
+      cloneKids f current ks = some f' → fpvQF Q f'
     | [], f, f' => by
       intro _ hq hcl; rw [cloneKids] at hcl; cases hcl; exact hq
     | k :: ks, f, f' => by
@@ -532,7 +532,7 @@ mutual
       · cases hcl
 end
 
-theorem fpv_cloneNode (hc : QCat Q) {f : Forest} (hq : QF Q f) (node : Nat) : QF Q (f.cloneNode node).1 := by
+theorem fpv_cloneNode (hc : fpvQCat Q) {f : Forest} (hq : fpvQF Q f) (node : Nat) : fpvQF Q (f.cloneNode node).1 := by
   unfold cloneNode
   cases hg : f.get? node with
   | none => exact hq
@@ -542,7 +542,7 @@ theorem fpv_cloneNode (hc : QCat Q) {f : Forest} (hq : QF Q f) (node : Nat) : QF
     split
     · rename_i hval
       have hd : Q Value.document := hval ▸ fpv_QT_value hsrc
-      have h1 : QF Q f.newDocument.1 := fpv_newNode hq hd
+      have h1 : fpvQF Q f.newDocument.1 := fpv_newNode hq hd
       cases hn : f.newDocument with
       | mk f1 top =>
         rw [hn] at h1
@@ -552,7 +552,7 @@ theorem fpv_cloneNode (hc : QCat Q) {f : Forest} (hq : QF Q f) (node : Nat) : QF
         | none => exact h1
     · rename_i name hval
       have hd : Q (Value.element name) := hval ▸ fpv_QT_value hsrc
-      have h1 : QF Q (f.newElement name).1 := fpv_newNode hq hd
+      have h1 : fpvQF Q (f.newElement name).1 := fpv_newNode hq hd
       cases hn : f.newElement name with
       | mk f1 top =>
         rw [hn] at h1
